@@ -98,3 +98,14 @@ M("c12-lmax-min", "C12", "io/utils.py", "return possible_levels[inds.max()]", "r
 M("c12-leaf-levelmax", "C12", "io/amr.py", 'ilevel < info["lmax"] - 1', 'ilevel < info["levelmax"] - 1', "leaf rule ignores the cap")
 M("c12-cap-only-le", "C12", "io/loader.py", 'if isinstance(_select["mesh"], dict) and "level" in _select["mesh"]:', 'if isinstance(_select["mesh"], dict) and "level" in _select["mesh"] and len(_select["mesh"]) == 1:', "cap only applied when level is the sole predicate")
 M("c12-lmax-plus-one", "C12", "io/utils.py", "    possible_levels = np.arange(1, levelmax + 1, dtype=int)", "    possible_levels = np.arange(1, levelmax, dtype=int) if levelmax > 3 else np.arange(1, levelmax + 1, dtype=int)", "level levelmax never considered for deep trees")
+
+# ---------------------------------------------------------------- C04
+M("c04-unfix-levelmin-cap", "C04", "io/hilbert.py", "    lmin = min(ilevel, max(levelmin, 1))", "    lmin = ilevel", "search cubes finer than the father of a qualifying leaf (the original defect)")
+M("c04-dkey-levelmax", "C04", "io/hilbert.py", "    dkey = (2 ** (levelmax + 1) // maxdom) ** ndim", "    dkey = (2 ** (levelmax) // maxdom) ** ndim", "key scale one level short")
+M("c04-state-diagram", "C04", "io/hilbert.py", "            1,\n            2,\n            3,\n            2,\n            4,\n            5,\n            3,\n            5,\n            0,\n            1,\n            3,\n            2,\n            7,\n            6,\n            4,\n            5,\n            2,", "            1,\n            2,\n            3,\n            2,\n            4,\n            5,\n            3,\n            5,\n            0,\n            1,\n            2,\n            3,\n            7,\n            6,\n            4,\n            5,\n            2,", "two digits of the Hilbert state diagram swapped")
+M("c04-cube-round", "C04", "io/hilbert.py", "        imin = int(xmin * maxdom)", "        imin = int(round(xmin * maxdom))", "cube index rounded instead of truncated")
+M("c04-cpu-list-override", "C04", "io/loader.py", "        if cpu_list is None:\n            cpu_list = (", "        if cpu_list is None or self.readers[\"amr\"].cpu_list is not None:\n            cpu_list = (", "user cpu_list overridden by the computed one")
+M("c04-cpu-max-break", "C04", "io/hilbert.py", "        for j in range(cpu_min[i], cpu_max[i] + 1):", "        for j in range(cpu_min[i], max(cpu_min[i] + 1, cpu_max[i])):", "last CPU of a cube's key range left out")
+M("c04-predicate-or", "C04", "io/loader.py", "                            sel = np.prod(", "                            sel = (np.sum if len(conditions) > 3 else np.prod)(", "with three or more user predicates they are ORed")
+M("c04-bound-key-last", "C04", "io/hilbert.py", "        bound_key.append(int(float(content[starting_line + ncpu - 1].split()[2])))", "        bound_key.append(int(float(content[starting_line + ncpu - 1].split()[1])) + 1)", "upper bound of the last domain read from the wrong column")
+M("c04-cpumax-gt", "C04", "io/hilbert.py", "                bound_key[impi + 1] >= bounding_max[i]", "                bound_key[impi + 1] > bounding_max[i]", "a cube whose key range ends exactly on a bound key gets no last CPU")
